@@ -142,7 +142,9 @@ def search_one(case, real, cache):
     if lines[0] != want_first:
         return ("status line", repr(want_first), repr(lines[0]))
     rest = list(lines[1:])
+    names = [None] * len(rest)        # the true field name of each line (a name may itself contain ": ")
     has_body = not (status.startswith("1") or status.startswith("204") or status.startswith("304"))
+    app_seq = {}
     for k, v in pairs:
         nk = py_norm(k)
         # Content-Length belongs to the framing: the application's field is dropped for a
@@ -154,30 +156,24 @@ def search_one(case, real, cache):
             if optional:
                 continue
             return ("non latin-1 application string emitted", "500", repr(wire[:80]))
-        if al in rest:
-            rest.remove(al)
+        found = [i for i, l in enumerate(rest) if l == al and names[i] is None]
+        if found:
+            names[found[0]] = nk
+            app_seq.setdefault(nk, []).append(found[0])
         elif not optional:
             return ("application field missing from the head", repr(al), repr(lines))
-    for l in rest:
-        name = l.split(b": ", 1)[0].decode("latin-1")
-        if name not in SERVER_NAMES:
-            return ("line that is neither an application field nor a server field", "none", repr(l))
+    for i, l in enumerate(rest):
+        if names[i] is None:
+            name = l.split(b": ", 1)[0].decode("latin-1")
+            if name not in SERVER_NAMES:
+                return ("line that is neither an application field nor a server field", "none", repr(l))
+            names[i] = name
     # sorted by name, stable
-    names = [l.split(b": ", 1)[0].decode("latin-1") for l in lines[1:]]
     if names != sorted(names):
         return ("fields not sorted by name", repr(sorted(names)), repr(names))
-    app_seq = {}
-    for k, v in pairs:
-        try:
-            app_seq.setdefault(py_norm(k), []).append(("%s: %s" % (py_norm(k), v)).encode("latin-1"))
-        except UnicodeEncodeError:
-            pass
     for nk, seq in app_seq.items():
-        if nk == "Content-Length":
-            continue
-        got = [l for l in lines[1:] if l in seq]
-        if got[:len(seq)] != seq:
-            return ("fields of equal name not in the application's order", repr(seq), repr(got))
+        if seq != sorted(seq):
+            return ("fields of equal name not in the application's order", repr(sorted(seq)), repr(seq))
     return None
 
 
